@@ -237,7 +237,13 @@ func c07emit(cas c07case) (payloads []string, pan string) {
 			l = l.New(name)
 		}
 		// alternate between the ways of giving a logger its attributes
-		switch d % 3 {
+		switch (d + len(own)) % 4 {
+		case 3:
+			args := make([]any, 0, len(attrs))
+			for _, a := range attrs {
+				args = append(args, a)
+			}
+			l.SetAttrs1(slog.NewAttrs(args...))
 		case 0:
 			if len(attrs) > 0 {
 				l.SetAttrs(attrs...)
